@@ -108,6 +108,14 @@ def step' (st : St) (ts : List String) : St × String :=
     match doNew rest with
     | some s => (some s, "ok")
     | none => (none, "bad-op")
+  | ["ctor", m] =>
+    -- how the harness hands the comparator to the constructor; the tree owns a copy of the order it
+    -- was constructed with, so the model is the same in all four modes
+    match st with
+    | some s =>
+      if s.inited then (st, "bad-op")
+      else if m = "named" || m = "temp" || m = "mutate" || m = "factory" then (st, "ok") else (st, "bad-op")
+    | none => (st, "bad-op")
   | ["storage", m] =>
     match st with
     | some s =>
